@@ -540,6 +540,10 @@ func c04Scenarios() []c04Scenario {
 			}
 		}
 	}
+	// a QFI mapped explicitly to traffic class 0 (a legal class) while the default class is another one
+	out = append(out,
+		c04Scenario{Name: "up4-slice0-tc3-map-to-zero", Cfg: vCfg{P4: true, NConns: 2, P4Conf: &vP4Cfg{SliceID: 0, DefaultTC: 3, QFIToTC: map[uint8]uint8{9: 0, 5: 0}}}},
+		c04Scenario{Name: "up4-slice15-tc2-map-to-zero", Cfg: vCfg{P4: true, NConns: 2, P4Conf: &vP4Cfg{SliceID: 15, DefaultTC: 2, QFIToTC: map[uint8]uint8{9: 0, 0: 1}}}})
 	return out
 }
 
@@ -547,7 +551,7 @@ func TestVerifC04(t *testing.T) {
 	vQuietLoggers()
 	res := vNewResult()
 	defer res.write(t)
-	res.Rule = "per configuration (slice {0,15} x default TC {0,3} x QFI->TC map {none, 9->1, 0->2+9->1}): BFS over association / establishment (1 or 2 QERs, SDF application filter with and without " +
+	res.Rule = "per configuration (slice {0,15} x default TC {0,3} x QFI->TC map {none, 9->1, 0->2+9->1} + two configurations mapping a QFI to class 0 under a non-zero default): BFS over association / establishment (1 or 2 QERs, SDF application filter with and without " +
 		"QER, buffering FAR, closed gate + dropping FAR; sessions sharing or not sharing gNB and filter) / Update FAR (forward to peer A or B, buffer) / deletion over 2 associations x <=3 sessions; " +
 		"after every step the fake switch is compared with refUP4 (sessions, terminations, applications, tunnel_peers, interfaces, meters, counters); restart at every write index. " +
 		"distinct_nontrivial = distinct canonical states + restart cases"
